@@ -160,3 +160,67 @@ fn c09_adjust_power() {
     assert!(t.pw as i32 == core::cmp::min(max_power as i32, eirp as i32 - gain as i32), "adjust_power = min(limit, EIRP - gain)");
     kani::cover!(true, "verif-reached: end");
 }
+
+// ------------------------------------------------------------------ Mac::send / Mac::join_otaa: power and channel of the uplink (C09)
+pub(crate) fn stub_prepare_buffer<const N: usize>(s: &mut Session, _data: &SendData<'_>, _tx: &mut RadioBuffer<N>, _c: &Configuration, _r: &region::Configuration) -> FcntUp { s.fcnt_up }
+
+fn mac_send_power(ri: usize) {
+    tape::init();
+    let region = region::Configuration::new(ALL_REGIONS[ri]);
+    let s = any_session_with(crate::mac::uplink::verif_uplink::any_uplink_len(0));
+    let mut m = any_mac(region, State::Joined(s));
+    // wf_plan: default mask, default channels; wf_conf: uplink data rate region-defined (and an uplink rate on fixed plans)
+    kani::assume(!m.region.has_fixed_channel_plan() || (m.configuration.data_rate as u8) <= 4);
+    if let Some(p) = m.configuration.tx_power { kani::assume(p <= spec_max_eirp(ri)); }   // only values check_tx_power hands out
+    let max_power = m.board_eirp.max_power;
+    let gain = m.board_eirp.antenna_gain;
+    let commanded = m.configuration.tx_power;
+    let mut rng = TapeRng { draws: 0, free: 2, accept: 0 };
+    let mut buf: RadioBuffer<64> = RadioBuffer::new();
+    let r = m.send::<TapeRng, 64>(&mut rng, &mut buf, &SendData { data: &[], fport: 1, confirmed: false });
+    match r {
+        Ok((tx, _w, _f)) => {
+            assert!(tx.pw as i32 <= max_power as i32, "C09 conducted power never above the radio's maximum");
+            assert!(tx.pw as i32 <= spec_max_eirp(ri) as i32 - gain as i32, "C09 never above regional maximum EIRP less antenna gain");
+            if let Some(p) = commanded { assert!(tx.pw as i32 <= p as i32, "C09 never above the level the network last commanded"); }
+            assert!(m.region.frequency_valid(tx.rf.frequency), "C09 uplink frequency inside the band");
+        }
+        Err(_) => assert!(false, "a joined device can send"),
+    }
+    kani::cover!(commanded.is_some(), "verif-reached: network commanded a power");
+    kani::cover!(commanded.is_none(), "verif-reached: default power");
+}
+// @verif props=C09,C04 obligation=Mac::send.power+frequency[EU868] label=proved-complete tier=quick bound="fresh channel plan; any board power 0..30 dBm, antenna gain -30..30 dBi, any commanded power of the region's table"
+#[kani::proof]
+#[kani::stub(crate::mac::session::Session::prepare_buffer, stub_prepare_buffer)]
+#[kani::unwind(74)]
+fn c09_mac_send_power_eu868() { mac_send_power(5) }
+// @verif props=C09,C04 obligation=Mac::send.power+frequency[US915] label=proved-complete tier=quick bound="fresh channel plan; any board power, antenna gain, commanded power"
+#[kani::proof]
+#[kani::stub(crate::mac::session::Session::prepare_buffer, stub_prepare_buffer)]
+#[kani::unwind(74)]
+fn c09_mac_send_power_us915() { mac_send_power(8) }
+
+// ------------------------------------------------------------------ Mac state machine around the join (C11, C04)
+// @verif props=C11,C04 obligation=Mac::{handle_rx,rx2_complete,send}.unjoined_states label=proved-complete tier=quick
+#[kani::proof]
+#[kani::unwind(74)]
+fn c11_mac_unjoined_states() {
+    tape::init();
+    let mut m = any_mac(region::Configuration::new(region::Region::EU868), State::Unjoined);
+    let old = m.configuration;
+    let mut rx: RadioBuffer<64> = RadioBuffer::new();
+    let n = tape::below(34);
+    { let b: [u8; 33] = tape::arr(); let p = rx.as_mut(); let mut i = 0; while i < 33 { p[i] = b[i]; i += 1; } }
+    rx.set_pos(n);
+    let mut dl: Vec<Downlink, 1> = Vec::new();
+    let d = m.region.get_datarate(0).unwrap();
+    let rf = RfConfig { frequency: 0, bb: BaseBandModulationParams::new(d.spreading_factor, d.bandwidth, m.region.get_coding_rate()), max_payload_len: 59 };
+    assert!(matches!(m.handle_rx::<64, 1>(&mut rx, &mut dl, 0, &rf), Response::NoUpdate), "C11 a device that never started a join ignores every frame");
+    assert!(matches!(m.rx2_complete(), Response::NoUpdate) && !m.is_joined() && m.configuration == old, "unjoined stays unjoined");
+    let mut rng = TapeRng { draws: 0, free: 2, accept: 0 };
+    let mut buf: RadioBuffer<64> = RadioBuffer::new();
+    assert!(m.send::<TapeRng, 64>(&mut rng, &mut buf, &SendData { data: &[], fport: 1, confirmed: false }).is_err(), "C11 no data uplink before a session exists");
+    assert!(m.get_fcnt_up().is_none() && m.get_session().is_none(), "no session");
+    kani::cover!(true, "verif-reached: end");
+}
